@@ -268,6 +268,41 @@ Definition fn_host_newstream := mkFn "host_newstream"
   ["cancel"; "ctx.Deadline"; "ctx.Err"; "h.Connect"; "h.Network"; "h.Peerstore";
    "h.Peerstore().AddProtocols"; "h.preferredProtocol"; "make"; "msmux.NewMSSelect"; "s.SetProtocol"].
 
+
+(* ---- swarm: what happens to an upgraded connection the swarm is given ------ *)
+(* Swarm.addConn owns tc (an upgraded connection: closing it closes the raw
+   connection and Dones its scope) until c.start() has registered it *)
+Definition fn_swarm_addconn := mkFn "swarm_addconn"
+  [("tc.CloseWithError", (RelConn, RelConn, RelConn));
+   ("tc.Close", (RelConn, RelConn, RelConn));
+   ("c.start", (HandOver, HandOver, HandOver))]
+  [] [] [] Nop
+  ["append"; "close"; "cs.Stat"; "delete"; "make"; "s.backf.Clear"; "s.connectionEventsEmitter.AddConn";
+   "s.conns.Lock"; "s.conns.Unlock"; "s.directConnNotifs.Lock"; "s.directConnNotifs.Unlock";
+   "s.gater.InterceptUpgraded"; "s.nextConnID.Add"; "s.peers.AddPubKey"; "s.refs.Add";
+   "tc.RemoteMultiaddr"; "tc.RemotePeer"; "tc.RemotePublicKey"].
+
+(* Swarm.AddListenAddr's accept loop: one iteration; the goroutine it starts
+   (swarm_listen_conn) takes the accepted connection over *)
+Definition fn_swarm_listen_loop := mkFn "swarm_listen_loop"
+  [("list.Accept", (AcqConn, Nop, Impossible))]
+  [] [] [] HandOver
+  ["c.LocalMultiaddr"; "c.RemoteMultiaddr"; "c.RemotePeer"; "canonicallog.LogPeerStatus"; "delete";
+   "list.Close"; "s.listeners.Lock"; "s.listeners.Unlock"; "s.notifyAll"; "s.refs.Add"; "s.refs.Done";
+   "wrapWithMetrics"].
+
+Definition fn_swarm_listen_conn := mkFn "swarm_listen_conn"
+  [] [("s.addConn", "swarm_addconn")] [] [] Nop ["s.refs.Done"].
+
+(* Swarm.dialAddr: the transport's dial returns an upgraded connection *)
+Definition fn_swarm_dialaddr := mkFn "swarm_dialaddr"
+  [("tpt.Dial", (AcqConn, Nop, Impossible));
+   ("du.DialWithUpdates", (AcqConn, Nop, Impossible));
+   ("connC.Close", (RelConn, RelConn, RelConn))]
+  [] [] [] Nop
+  ["canonicallog.LogPeerStatus"; "connC.RemoteMultiaddr"; "connC.RemotePeer"; "connWithMetrics.completedHandshake";
+   "ctx.Err"; "s.TransportForDialing"; "s.bhd.RecordResult"; "s.metricsTracer.FailedDialing"; "wrapWithMetrics"].
+
 (* ---- resource state and interpretation --------------------------------- *)
 Record st := mkSt {
   raw : res; cscope : res; strm : res; sscope : res;
